@@ -266,7 +266,8 @@ func replScenario(out *Out, r *rand.Rand, sc int) {
 	e := &replEnv{out: out, r: r, lastRev: map[string]uint64{}, gens: map[string]*fsmGen{}}
 	out.Line("reset", "ok")
 	snapEntries := uint64(10 + r.Intn(40))
-	e.leader = newEngine(engineOpts{maxInMem: 6 * 1024 * 1024, snapshotEntries: snapEntries, compactionOverhead: uint64(2 + r.Intn(6)), logCache: []int{0, 8, 1024}[r.Intn(3)]})
+	out.Count(fmt.Sprintf("leader_log_cache_%d", []int{1024, 8, 0}[sc%3]))
+	e.leader = newEngine(engineOpts{maxInMem: 6 * 1024 * 1024, snapshotEntries: snapEntries, compactionOverhead: uint64(2 + r.Intn(6)), logCache: []int{1024, 8, 0}[sc%3]})
 	defer e.leader.Close()
 	l, err := net.Listen("tcp", "127.0.0.1:0")
 	must(err)
